@@ -7,13 +7,13 @@ HOOK_COMMITS = subprocess.run(["git", "-C", "/repo", "log", "--format=%H", "--gr
 
 CHECKS = {
  "C01": dict(level="fault_enumeration",
-  text="Crash-point enumeration over generated histories: one execution on the simulated disk yields the op log; for every log position after creation every crash image (durable prefix + subsets of un-synced page writes/truncates, torn header writes) is reopened through the normal open path and must expose exactly an allowed model state (last returned commit, or the commit in progress), pass the allocator partition check and run a suffix of transactions. Small-scope exhaustive per history (all 2^p subsets up to a bound, structured families beyond), histories sampled.",
+  text="Crash-point enumeration over generated histories: one execution on the simulated disk yields the op log; for every log position after creation every crash image (durable prefix + subsets of un-synced page writes/truncates, torn header writes) is reopened through the normal open path and must expose exactly an allowed model state (last returned commit, or the commit in progress), pass the allocator partition check and run a suffix of transactions; on a sample of the recovered images (torn-header images preferred) the suffix is recorded and its own crash images are enumerated too (crash during the first transactions after a crash recovery). Small-scope exhaustive per history (all 2^p subsets up to a bound, structured families beyond), histories sampled.",
   note="Durability model: a completed Sync makes all earlier writes durable; un-synced page writes may each be lost independently; no sector tearing inside data pages; creation crash excluded.",
   technique="fault enumeration: rapid-generated histories x exhaustive/structured crash-image enumeration on a simulated disk, model oracle",
   design="4/C01"),
  "C08": dict(level="fault_enumeration",
-  text="I/O fault enumeration: each generated history is run fault-free to count the I/O calls, then re-run with fault plans (kind, ordinal, burst, mode) - sampled in quick, complete sweep for small histories in thorough - checking: no panic/hang, a commit hit by a fault fails, in-process readers keep the last successful state, post-fault transactions commit, clean reopen shows an allowed state, file stays usable.",
-  note="Open findings F11, F16, F17 are reported as KNOWN-FINDING and recognised by their history pattern (dedicated oracle clauses); writer drained so that call ordinals are program-determined.",
+  text="I/O fault enumeration: each generated history is run fault-free to count the I/O calls, then re-run with fault plans (kind, ordinal, burst, mode) - sampled in quick, complete sweep for small histories in thorough - checking: no panic/hang, a commit (or a Begin that has to restore the file header) hit by a fault fails, in-process readers keep the last successful state, post-fault transactions commit, clean reopen shows an allowed state, file stays usable; for runs with a commit attempt that failed by syncs only, the crash images from that attempt to the end of the run are enumerated and must show, completely, the last successful state, the commit in progress or such an unconfirmed attempt.",
+  note="Open finding F17 is reported as KNOWN-FINDING and recognised by its history pattern (a size/truncate/mmap failure hitting the tail of a Commit; dedicated oracle clause), F11 and F16 are repaired; writer drained so that call ordinals are program-determined.",
   technique="fault injection sweep over rapid-generated histories on a simulated disk, model oracle",
   design="4/C08"),
  "C16": dict(level="fault_enumeration",
@@ -32,12 +32,12 @@ CHECKS = {
   technique="model-based property testing (rapid) with partition invariant over hook snapshot",
   design="4/C04"),
  "C07": dict(
-  text="Twin execution: H;T;K versus H;K (plus a determinism control run) for generated aborted transactions T (rollback, close, failed commit); compares every outcome, allocated id and byte read in K, capacity probes and the allocator state; additionally the in-memory state right after T must equal the state right before T.",
+  text="Twin execution: H;T;K versus H;K (plus a determinism control run) for generated aborted transactions T (rollback, close, failed commit); compares every outcome, allocated id and byte read in K, capacity probes and the allocator state; additionally the in-memory state and the reported FileStats right after T must equal those right before T, and on a bounded file the file is not larger after T than before it or than the committed end markers require.",
   note="Cross-run comparison is skipped once a transaction enabled the overflow area (page identities inside the meta area are map-order dependent); identities inside the meta area are never compared across runs.",
   technique="differential (twin-run) property testing with rapid-generated programs",
   design="4/C07"),
  "C10": dict(
-  text="Twin execution of a generated program with and without interposed close/reopen items: outcomes, bytes read, capacity probes and user-visible allocator state must agree; inside one run the complete internal state before Close must equal the state after Open. Generators force multi-page free lists / overwrite mappings, regions >= 255 pages and remaps.",
+  text="Twin execution of a generated program with and without interposed close/reopen items: outcomes, bytes read, capacity probes and user-visible allocator state must agree; inside one run the complete internal state before Close must equal the state after Open. Generators force multi-page free lists / overwrite mappings, regions >= 255 pages (also initial meta areas of 254-257 pages), remaps, and full files whose metadata lives in the overflow area and is released again.",
   note="Page ids after reopen are not required to match (only outcomes); differences must be stable under repetition (map-order nondeterminism of meta-area internals is filtered); thorough tier adds native fuzzing of the (de)serialisers.",
   technique="differential (twin-run) property testing + round-trip invariant, rapid generators with shaping scenarios",
   design="4/C10"),
@@ -47,7 +47,7 @@ CHECKS = {
   technique="model-based property testing (rapid) with conservation invariant",
   design="4/C11"),
  "C15": dict(
-  text="For every generated prefix history the complete method x receiver-state matrix of Tx and Page (and, in the queue part, Reader/Writer/ACK) is executed under recover(): no panic, documented error kind, committed state and running transaction unchanged.",
+  text="For every generated prefix history the complete method x receiver-state matrix of Tx and Page (and, in the queue part, Reader/Writer/ACK) is executed under recover(): no panic, documented error kind, committed state and running transaction unchanged; includes a reader begun while the write transaction holds uncommitted allocations (their ids are out of range for it) and queue handles closed before reader/acker were ever requested.",
   note="Only documented error kinds are asserted; matrix is exhaustive per prefix, prefixes are sampled.",
   technique="property testing with exhaustive per-case enumeration of the misuse matrix",
   design="4/C15"),
@@ -57,7 +57,7 @@ CHECKS = {
   technique="model-based property testing (rapid) with boundary-biased generators",
   design="4/C05"),
  "C06": dict(level="fault_enumeration",
-  text="Crash-point enumeration over generated producer/consumer histories: markers around every writer call / ACK / close; every crash image (subsets of un-synced writes, torn header) is reopened via txfile open + NewStandaloneDelegate + pq.New and drained; the delivered sequence must be exactly events [ACKed, flushed) for an allowed pair (flush / ACK in progress all-or-nothing); sampled images also append, drain and ACK. Clean close/reopen points are covered by the history itself (drain probes after reopen).",
+  text="Crash-point enumeration over generated producer/consumer histories: markers around every writer call / ACK / close; every crash image (subsets of un-synced writes, torn header) is reopened via txfile open + NewStandaloneDelegate + pq.New and drained; the delivered sequence must be exactly events [ACKed, flushed) for an allowed pair (flush / ACK in progress all-or-nothing); sampled images also append, drain and ACK (on a full file: ACK first, then the buffered event must be flushable). One in six crash histories runs fill-until-error / drain / ACK cycles on a 16-64 page file (ACK transactions using and releasing the overflow area). Clean close/reopen points are covered by histories with many reopen points (drain probe after each). A third part re-executes generated histories under I/O fault plans (write / short write / sync failures in the flush and ACK transactions): errors are returned, nothing is lost, duplicated or reordered, and after the failures stop (and after a clean reopen) the queue holds exactly the un-ACKed completed events.",
   note="Same durability model as C01; the documented Flushed callback tells which calls flushed implicitly.",
   technique="fault enumeration: rapid-generated queue histories x crash-image enumeration, event-range oracle",
   design="4/C06"),
@@ -72,8 +72,8 @@ CHECKS = {
   technique="model-based property testing (rapid), drain-probe ground truth",
   design="4/C17"),
  "C14": dict(
-  text="Model-based exploration of max-size changes on open: generated prior history, open with FlagUpdMaxSize to a larger / smaller / equal / unbounded limit (with and without Prealloc), lock-state probe, read and write transactions, capacity probes and further history, then a plain reopen; oracles: model equality, lock idle after open, exact capacity delta after growing, extent bound after shrinking, persisted limit.",
-  note="A blocked Begin is detected via the lock-state hook rather than by timeout; exact grow delta only asserted when the data end was within the old limit.",
+  text="Model-based exploration of max-size changes on open: generated prior history, (including transactions that use the overflow area, and the shape 'file completely full, overflow transaction, then resize'), open with FlagUpdMaxSize to a larger / smaller / equal / unbounded limit (with and without Prealloc), opens with a max size but without the flag (in-memory limit of an unbounded file, ignored by a bounded one), lock-state probe, read and write transactions, capacity probes and further history, then a plain reopen; oracles: model equality, lock idle after open, exact capacity delta after growing, extent bound after shrinking, persisted limit.",
+  note="A blocked Begin is detected via the lock-state hook rather than by timeout; exact grow delta only asserted when the data end was within the old limit (pages of the overflow area beyond the old limit count as used already); the extent bound after shrinking is not applied once a later transaction enabled the overflow area.",
   technique="model-based property testing (rapid) over (history, old max, new max, prealloc)",
   design="4/C14"),
  "C02": dict(
@@ -87,12 +87,12 @@ CHECKS = {
   technique="property testing (rapid): sequential invariant + concurrent stress under -race + schedule exploration on the real lock object",
   design="4/C09"),
  "C13": dict(
-  text="Two-goroutine producer/consumer scenarios on one queue under the race detector with generated event sizes, chunkings, flush points, reader section lengths, partial reads, ACK batches and yield patterns, on bounded (retry when full) and unbounded files; the consumer must receive exactly the produced sequence, ACK never exceeds consumption, both finish, no data race, empty queue at the end.",
+  text="Two-goroutine producer/consumer scenarios on one queue under the race detector with generated event sizes, chunkings, flush points, reader section lengths, partial reads, ACK batches and yield patterns, on bounded (retry when full) and unbounded files; the consumer must receive exactly the produced sequence, ACK never exceeds consumption, after every ACK Active() is at least the number of events the Flushed callback had reported minus the ACKed ones (a flush that overlapped the ACK must not be lost), both finish, no data race, empty queue at the end.",
   note="Schedule perturbed, not owned: atomicity defects found probabilistically; failures print the scenario (no shrinking of schedules).",
   technique="concurrent property testing (rapid-generated scripts) under the Go race detector with FIFO oracle",
   design="4/C13"),
  "C18": dict(
-  text="Generated sequences of open / second open / waiting open / transaction / close / failing opens (invalid options, damaged or zeroed headers, short file) on one path of the real file system: second open must fail with LockFailed and leave the first usable, a waiting open returns only after Close, every failed open and every Close leaves the path lockable at once with the last committed contents.",
+  text="Generated sequences of open / second open / waiting open / transaction / close / failing opens (invalid options, damaged or zeroed headers, short file) on one path of the real file system: second open must fail with LockFailed and leave the first usable, a waiting open returns only after Close, every failed open and every Close leaves the path lockable at once with the last committed contents; on the simulated disk: creation/open with each I/O call failing once, and a Close whose munmap fails, must release the lock.",
   note="Runs on the OS file system with flock; injected I/O failure during initialisation is covered on the simulated disk (lock flag checked after failed opens in C08/C16).",
   technique="model-based property testing (rapid) on the real file system",
   design="4/C18"),
